@@ -591,6 +591,67 @@ def run_recursive_trace(cfg, tops):
         rm_rf(tmp)
 
 
+def run_twin_trace(cfg, calls):
+    """two instances of one decorator (two caches) over ONE archive, called alternately. The trace is instance A's: A's calls are call
+    ops; whatever instance B writes into the shared archive appears in A's history as external archive writes (`extput`), which is
+    exactly what the model's alphabet has for 'another session of the same function wrote to the archive'."""
+    import klepto, klepto.safe
+    tmp = scratch_dir('kwt')
+    cwd = os.getcwd()
+    try:
+        os.chdir(tmp)
+        random.seed(sub_seed('rr', json.dumps(cfg, sort_keys=True)))
+        R = Runner(cfg, tmp)
+        if R.bare or not R.c.archived() or not R.hashable: return dict(cfg=cfg, ops=[], lines=[], recs=[], err=None)
+        from klepto.archives import cache as kcache
+        shared = R.c.archive if cfg['backend'] == 'dict' else make_backend(cfg['backend'], tmp, variant=cfg.get('variant', 0))[1]
+        C = getattr(klepto.safe if cfg['safe'] else klepto, cfg['algo'] + '_cache')
+        kw = dict(cache=kcache(archive=shared), keymap=make_keymap(cfg['keymap']))
+        if cfg['algo'] not in ('no', 'inf'): kw.update(maxsize=cfg['maxsize'], purge=cfg['purge'])
+        B = C(**kw)(fun)
+        lines = [R.cfg_line()]
+        recs, ops = [], []
+        before = R.observe()
+        def push(op, line, out, after=None):
+            nonlocal before
+            after = after if after is not None else R.observe()
+            recs.append(dict(i=len(recs), op=op, line=line, out=out, before=before, after=after))
+            ops.append(op)
+            if line is not None: lines.append(line)
+            before = after
+        for who, x in calls:
+            if who == 0:
+                line, out, _ = R.do(['call', x])
+                push(['call', x], line, out)
+            else:
+                a0 = dict(R.c.archive.items())
+                st = random.getstate()
+                try: B(R.A(x))
+                finally: random.setstate(st)
+                a1 = dict(R.c.archive.items())
+                new = [(k, v) for k, v in a1.items() if k not in a0 or a0[k] != v]
+                for n_, (k, v) in enumerate(new):
+                    # several writes of one call are replayed one by one: the states in between are the archive with the first n of them
+                    # applied (an archive write is `archive[k] = v`); the last one is the state really observed
+                    synth = None
+                    if n_ < len(new) - 1 and before.get('arch') is not None:
+                        cur = dict(map(tuple, before['arch'])); cur[R.K(k)] = R.V(v)
+                        synth = dict(before, arch=sorted([a, b] for a, b in cur.items()))
+                    push(['extput', x], dict(op='extput', k=R.K(k), v=R.V(v)), 'unit', synth)
+                gone = [k for k in a0 if k not in a1]
+                if gone:
+                    recs.append(dict(i=len(recs), op=['extdel', x], line=None, out={'crash': 'the other instance removed %r from the shared archive' % gone[:3]}, before=before, after=before))
+                    break
+        return dict(cfg=cfg, ops=ops, lines=lines, recs=recs, err=None, twin=True,
+                    keys=[repr(k)[:60] for k in R.K.vals], vals=[repr(v)[:40] for v in R.V.vals])
+    except Exception:
+        import traceback
+        return dict(cfg=cfg, ops=[], lines=[], recs=[], err=traceback.format_exc()[-1500:])
+    finally:
+        os.chdir(cwd)
+        rm_rf(tmp)
+
+
 def run_trace(cfg, ops):
     """execute on the implementation. Returns dict(lines=[...], obs=[...], err=None|str)"""
     tmp = scratch_dir('kw')
